@@ -129,10 +129,21 @@ fn run_sequence_tsi(w: u8, tsi: u64, init_name: &str, init: Option<u128>, ops: &
                         Err(_) => trace.push("add_object(oversized) refused".into()),
                     }
                 }
-                3 | 4 => {
+                3 | 4 | 7 => {
                     let o = ObjSpec::new(vec![step as u8; 40 + step], &format!("file:///toi/{}", step));
                     let mut b = build_object(&o).unwrap();
-                    let expected = if *op == 3 && !handles.is_empty() {
+                    let expected = if *op == 7 && handles.len() >= 2 {
+                        // the application changes its mind: a first reserved TOI is assigned, then a second one. The
+                        // object carries the TOI assigned last; the first one is given back (its handle is dropped)
+                        let first = handles.remove(0);
+                        let second = handles.pop().unwrap();
+                        let (v1, v2) = (first.get(), second.get());
+                        b.desc.set_toi(first);
+                        b.desc.set_toi(second);
+                        trace.push(format!("set_toi({}) then set_toi({})", v1, v2));
+                        m.live.remove(&v1);
+                        Some(v2)
+                    } else if (*op == 3 || *op == 7) && !handles.is_empty() {
                         let h = handles.remove(0);
                         let v = h.get();
                         b.desc.set_toi(h);
@@ -457,6 +468,7 @@ fn main() {
         let ralpha: [u8; 4] = [0, 6, 4, 1];
         let rinits: Vec<(&'static str, fn(u8) -> u128)> = vec![("max-2", |w| maxv(w) - 2), ("max-1", |w| maxv(w) - 1), ("max", |w| maxv(w)), ("1", |_| 1)];
         let nri = rinits.len();
+        let rinits2 = rinits.clone();
         gens.push(Gen::new("rejected_adds", WIDTHS.len() * nri, move |_ctx, i| {
             let w = WIDTHS[i / nri];
             let (iname, f) = rinits[i % nri];
@@ -485,6 +497,42 @@ fn main() {
             }
             cr.states = vec![util::fnv(&format!("rej|{}", w))];
             cr.sample = Some(json!({"width": w, "initial": iname, "sequences": 1024, "allocations": na}));
+            limit(&mut cr.violations, 2);
+            cr
+        }));
+        // ---- a TOI assigned to an object and then replaced by another reserved TOI before add_object: all sequences of
+        // depth 6 over {allocate, add with re-assigned handles, add with one handle, drop newest handle}
+        let salpha: [u8; 4] = [0, 7, 3, 2];
+        gens.push(Gen::new("reassigned_handles", WIDTHS.len() * nri, move |_ctx, i| {
+            let w = WIDTHS[i / nri];
+            let (iname, f) = rinits2[i % nri];
+            let init = f(w);
+            let mut cr = CaseResult::default();
+            let (mut na, mut np) = (0, 0);
+            for code in 0..4usize.pow(6) {
+                let mut ops = vec![0u8, 0];
+                let mut x = code;
+                for _ in 0..6 {
+                    ops.push(salpha[x % 4]);
+                    x /= 4;
+                }
+                ops.push(5);
+                // and once more around: what was given back is allocated again while the objects are gone
+                ops.extend_from_slice(&[0, 0, 7, 5]);
+                let (a, p) = run_sequence(w, iname, Some(init), &ops, &mut cr.violations);
+                na += a;
+                np += p;
+                if cr.violations.len() > 20 {
+                    break;
+                }
+            }
+            cr.count("allocations", na);
+            cr.count("packets_compared", np);
+            if na > 0 {
+                cr.shape = Some(util::fnv(&format!("reassign|{}|{}", w, iname)));
+            }
+            cr.states = vec![util::fnv(&format!("reassign|{}", w))];
+            cr.sample = Some(json!({"width": w, "initial": iname, "sequences": 4096, "allocations": na}));
             limit(&mut cr.violations, 2);
             cr
         }));
